@@ -1,7 +1,7 @@
 ----------------------------- MODULE RandomTrace -----------------------------
 (* code -> spec for C28.  Records (fingerprints, names, keys interned to positive
    integers; 0 = the computation raised):
-     [id, kind |-> "draw",     obs: <<[how, fp]>>]
+     [id, kind |-> "draw",     obs: <<[how, obj, fp]>>]
      [id, kind |-> "unseeded", names, keys, alone, together]
      [id, kind |-> "choice",   pop, size, res, raised]                        *)
 EXTENDS Random, TraceIO
